@@ -277,6 +277,35 @@ def bmc_violations(res, found):
     return out
 
 
+BASELINE = os.path.join(os.path.dirname(os.path.dirname(os.path.abspath(__file__))), 'baseline_obligations.json')
+
+
+def load_baseline():
+    try:
+        with open(BASELINE) as f:
+            return {k: set(v) for k, v in json.load(f).items()}
+    except (OSError, ValueError):
+        return {}
+
+
+def write_baseline(pid, rep):
+    """developer action (VERIF_WRITE_BASELINE=1 on the unchanged tree, then commit): the obligations discharged on every path"""
+    status = {}
+    for t, c, v in rep.verdicts:
+        if v.obl.expect != 'proved':
+            continue
+        key = f'{t.fullname}|{c.name}|{v.obl.name}'
+        status[key] = status.get(key, True) and v.status == 'proved'
+    try:
+        with open(BASELINE) as f:
+            data = json.load(f)
+    except (OSError, ValueError):
+        data = {}
+    data[pid] = sorted(k for k, ok in status.items() if ok)
+    with open(BASELINE, 'w') as f:
+        json.dump(data, f, indent=0, sort_keys=True)
+
+
 def finish(res, tier, seed, t0, checker_cmd):
     """print lines, write replay files + evidence, return exit code"""
     pid = res.pid
@@ -314,13 +343,54 @@ def finish(res, tier, seed, t0, checker_cmd):
         for u in rep.undecided:
             msg = f'{u.target.fullname}[{u.config.name if u.config else "-"}]: {u.reason}'
             (crashes if 'CHECKER-CRASH' in u.reason else undecided).append(msg)
+        # An obligation that was discharged on the unchanged tree (committed baseline) and can no longer be discharged is a failed named obligation:
+        # it is reported as the violation, without a failing input.  It is first re-tried alone with a long budget so that a busy machine cannot cause it.
+        base = load_baseline().get(pid, set())
+        regress = {}
         for t, c, v in rep.open():
+            key = f'{t.fullname}|{c.name}|{v.obl.name}'
+            if key in base and key not in regress:
+                regress[key] = (t, c, v)
+        still = {}
+        if regress and len(regress) <= 24:
+            from pyvc.discharge import discharge
+            items = list(regress.items())
+            vs = discharge([v.obl for _, (t, c, v) in items], timeout_s=90 if tier == 'quick' else 240, instantiate=False, procs=min(8, len(items)))
+            vs2 = discharge([v.obl for _, (t, c, v) in items], timeout_s=90 if tier == 'quick' else 240, instantiate='always', procs=min(8, len(items)))
+            for (key, (t, c, v)), a, b_ in zip(items, vs, vs2):
+                if a.status != 'proved' and b_.status != 'proved':
+                    still[key] = (t, c, v, a.status if a.status != 'undecided' else b_.status, a.reason or b_.reason)
+        elif regress:
+            still = {k: (t, c, v, 'undecided', v.reason) for k, (t, c, v) in regress.items()}
+        for key, (t, c, v, status, reason) in still.items():
+            vk_ = f'{v.obl.name}@{t.fullname}'
+            if any(x.key == vk_ for x in viols):
+                continue
+            viol = Violation(vk_, f'obligation `{v.obl.name}` of {t.fullname} (line {v.obl.lineno}, config {c.name}) was discharged on the unchanged tree and cannot be '
+                                   f'discharged any more ({"refuted on retry" if status == "refuted" else "solver: " + (reason or "unknown / timeout")})',
+                             kind='obligation', function=t.fullname, obligation=v.obl.name)
+            viol.reproduced = None
+            viol.solver = {'status': status, 'reason': reason or 'unknown / timeout', 'config': c.name, 'line': v.obl.lineno,
+                           'rule': 'named obligation of the baseline (baseline_obligations.json) no longer discharged, re-tried alone with a long budget'}
+            if vk_ in known:
+                known_hit.add(vk_)
+                continue
+            path = write_replay(pid, viol, viol.solver)
+            lines.append(f'VIOLATION property={pid} replay={path} no-failing-input-found')
+            print(f'  violated: {viol.what}')
+            reported += 1
+            exit_code = 1
+        for t, c, v in rep.open():
+            if f'{t.fullname}|{c.name}|{v.obl.name}' in still:
+                continue
             undecided.append(f'{t.fullname}[{c.name}] obligation `{v.obl.name}` line {v.obl.lineno}: {v.reason or "unknown"}')
         for t, c, v in rep.mustfail_broken():
             crashes.append(f'vacuity guard: must-fail obligation `{v.obl.name}` of {t.fullname}[{c.name}] came back {v.status}')
         for name, f in rep.functions.items():
             if f['obligations'] == 0 and not any(u.target.fullname == name for u in rep.undecided):
                 crashes.append(f'vacuity guard: zero obligations generated for {name}')
+    if rep is not None and os.environ.get('VERIF_WRITE_BASELINE') == '1' and not os.environ.get('KYUPY_REPO'):
+        write_baseline(pid, rep)
     for u in undecided[:40]:
         print(f'UNDECIDED property={pid} {u}')
     for c in crashes[:40]:
